@@ -126,6 +126,9 @@ class Program:
         for f in fns:
             self.fns.append(f)
             self.by_path.setdefault(f.path, []).append(f)
+            last = f.path.split("::")[-1]
+            if last != f.path and "promoted" not in f.path and "{" not in last:
+                self.by_path.setdefault(last, []).append(f)
             for loc in getattr(f, "all_impl_locs", []):
                 key = (crate,) + loc
                 if key not in self.impl_info:
@@ -615,6 +618,10 @@ class Executor:
             if kind in ("Transmute", "PtrToPtr", "PointerCoercion"):
                 return v
             raise Unsupported("cast kind " + kind)
+        if r.startswith("no_retag "):
+            r = r[len("no_retag "):]
+        if r.startswith("deref_copy "):
+            return self.read_place(fn, r[len("deref_copy "):], st, frame)
         # operand
         if r.startswith(("copy ", "move ", "const ")):
             return self.eval_operand(fn, r, st, frame)
